@@ -556,7 +556,7 @@ fn check_completed_step(
         return Err(Violation::new(
             "payload-identity",
             "",
-            format!("{}: Eq and Hash of the payload types disagree: {}", who, what),
+            format!("{}: Eq, Hash and Ord of the payload types disagree: {}", who, what),
         ));
     }
     if let Some(what) = &t.lib_vec_mismatch {
@@ -1061,6 +1061,10 @@ impl C06 {
                 target_fail_push: if faulty && t.chance(1, 8) { 12 } else { 0 },
             };
             let uni = Universe::gen(&mut t);
+            let mut net = net;
+            if uni.has_oversized() && net.cap < 1000 {
+                net.cap = 1000;
+            }
             let set = uni.random_set(&mut t);
             let window = t.choose(if deep { 12 } else { 5 }) as usize;
             let session = t.bits(16) as u16;
